@@ -2,6 +2,7 @@
 from __future__ import annotations
 
 import math
+import os
 from fractions import Fraction
 
 from ..core import frac
@@ -455,6 +456,8 @@ def gen_cases(rng, tier):
     for _ in range({"quick": 24, "thorough": 200, "search": 24}[tier]):
         cases.append(K.other_names(rng, _table(rng, rng.choice([3, 16, 30]), force={
             "method": "clonal", "purity": rng.choice([None, 1.0, 0.5, 0.3]), "classes": ["auto", "auto", "auto", "x", "y"]})))
+    if os.environ.get("VERIF_C01_ONLY"):  # restricted runs for mutation tests: only the cases whose tag starts with this
+        cases = [c for c in cases if str(c.get("tag", "")).startswith(os.environ["VERIF_C01_ONLY"])]
     return cases
 
 
